@@ -355,9 +355,47 @@ def case_estimator(ctx, rng, idx):
         return
     scale = fro(want) + sum(1.0 for _ in users) * 1e-300
     amp = max(1.0, max((10.0 for _ in users[1:]), default=1.0))
-    ctx.within("estimator-exact", fro(got - want), 256 * EPS * size * amp * 10 * scale +
-               (64 * EPS * math.pi * u * size * scale * 8 if size > 24 else 0),
+    tol = 256 * EPS * size * amp * 10 * scale + \
+        (64 * EPS * math.pi * u * size * scale * 8 if size > 24 else 0)
+    ctx.within("estimator-exact", fro(got - want), tol,
                variant + (":multi-user" if len(users) > 1 else ":single-user"), tag)
+    # the same estimator object and the same observation array are used again
+    # (other number of kept taps): nothing may have been consumed or cached
+    if not (variant == "dmrs-occ" and 'flat' in dir() and flat):
+        Yobs = np.array(Yin)
+        Ykeep = Yobs.copy()
+        lo2 = L - 1
+        hi2 = max(L, window) if (multi and len(users) > 1) else size
+        for rep in range(2):
+            keep2 = int(rng.integers(lo2, hi2))
+            okc, got2 = ctx.call("estimator-exact", est.estimate_channel_freq_domain, Yobs,
+                                 keep2, cls="second-call", detail={**tag, "keep2": keep2})
+            if not okc:
+                break
+            ctx.within("estimator-exact", fro(np.asarray(got2) - want), tol,
+                       variant + ":reused-estimator-and-observation",
+                       {**tag, "num_taps_to_keep_second_call": keep2, "call": rep + 2})
+            ctx.ev("args-not-mutated", np.array_equal(Yobs, Ykeep),
+                   cls="estimate_channel_freq_domain", detail=tag)
+        # ... and for ANOTHER observation: a different channel (other number of
+        # taps, other number of kept taps) seen by the same estimator object
+        L3 = int(rng.integers(1, max(2, min(window, 12) + 1)))
+        h3 = num.randn_c(rng, Nr, L3) * 10.0 ** rng.uniform(-2, 1)
+        H3 = true_response(h3, mult * size)
+        if variant == "dmrs-occ":
+            Y3 = seq0[None, :, :] * H3[:, None, obs_idx]
+        else:
+            Y3 = seq0[None, :] * H3[:, obs_idx]
+        keep3 = int(rng.integers(L3 - 1, size))
+        okc, got3 = ctx.call("estimator-exact", est.estimate_channel_freq_domain, Y3, keep3,
+                             cls="third-call", detail={**tag, "keep3": keep3, "taps3": L3})
+        if okc:
+            got3 = np.asarray(got3)
+            ctx.within("estimator-exact", fro(got3 - H3) if got3.shape == H3.shape else 1e300,
+                       256 * EPS * size * 10 * fro(H3) +
+                       (64 * EPS * math.pi * u * size * fro(H3) * 8 if size > 24 else 0),
+                       variant + ":reused-estimator-new-channel",
+                       {**tag, "taps_second_channel": L3, "num_taps_to_keep": keep3})
     ctx.sig("est", variant, size % 5, Nr, normalize, len(users), Yin.ndim)
     ctx.tally("estimator-users=%d" % len(users))
     ctx.sample(variant, tag)
